@@ -137,7 +137,7 @@ func genC05(g *Gen, tier string) *Case {
 	if g.Chance(0.05) {
 		ops = []Tok{TL(TNi(hlNew), TNi(0), TNu(uint64(g.Pick(0, 3, 6, 100))))}
 	}
-	huge := g.Big && g.Rare(0.04, 50, 17)
+	huge := g.Big && g.Rare(0.04, 120, 17)
 	if huge {
 		m = uint64(g.Pick(65536, 65536, 131072))
 		ops = []Tok{TL(TNi(hlNew), TNi(0), TNu(m))}
